@@ -228,6 +228,9 @@ class CW:
         while isinstance(x, tuple) and x[0] == "bin" and x[1] in ("Add", "Sub") and isinstance(x[3], tuple) and x[3][0] == "c" \
                 and isinstance(x[3][1], int):
             c = x[3][1]
+            if c == 0:
+                x = strip(x[2])        # `+ 0`: a token that is not due on this path
+                continue
             if c != 0 and c % self.WEAK_COUNT == 0 and c // self.WEAK_COUNT < (1 << 29):
                 if x[1] == "Sub":
                     return None       # no builder for it: a weak decrement by arithmetic stays unparsed (analysis error)
@@ -237,9 +240,8 @@ class CW:
             else:
                 return None
             x = strip(x[2])
-        if not more:
-            return None
-        if isinstance(x, tuple) and x[0] == "field" and x[1] in ("inner", "State.inner", "0"):
+        if isinstance(x, tuple) and x[0] == "field" and x[1] in ("inner", "State.inner", "0") and \
+                strip(t[2][0]) != x:
             more.reverse()
             return strip(x[2]), more
         return None
@@ -407,6 +409,43 @@ class CW:
             else:
                 raise AnalysisError("%s: unclassifiable atomic op `%s` on the count word" % (path.body.name, op))
             out.append(site)
+        # a CAS that is skipped because it would not change the word (`if new.as_raw() == old.as_raw() { break }`) counts as
+        # performed: on the path that takes the equal edge, writing `new` over `old` and not writing are the same - the
+        # transformer is the identity on this word (in particular a stamp that is "not written" is already there)
+        extra = []
+        for i, e in enumerate(path.events):
+            if e.kind != "cond" or e.value != 1 or not (isinstance(e.term, tuple) and e.term[0] == "bin" and e.term[1] == "Eq"):
+                continue
+            a, b_ = self.unraw(e.term[2]), self.unraw(e.term[3])
+            if a is None or b_ is None:
+                continue
+            for new, cur in ((a, b_), (b_, a)):
+                base, ops = self.parse_state(new)
+                cbase, cops = self.parse_state(cur)
+                if cops or base != cbase or not ops:
+                    continue
+                src = [s_ for s_ in out if s_["observed"] == cbase and s_["idx"] < i]
+                if not src:
+                    continue
+                site = {"op": "compare_exchange", "obj": src[-1]["obj"], "idx": i, "event": e, "observed": cbase, "delta": {},
+                        "sets": {}, "stamp": None, "outcome": "ok", "kind": "rmw", "chain": ops, "virtual": True}
+                for (bn, arg) in ops:
+                    if bn == "add_strong":
+                        site["delta"]["strong"] = (+1, arg)
+                    elif bn == "sub_strong":
+                        site["delta"]["strong"] = (-1, arg)
+                    elif bn == "add_weak":
+                        site["delta"]["weak"] = (+1, arg)
+                    elif bn == "with_destructed":
+                        site["sets"]["destructed"] = arg
+                    elif bn == "with_weaked":
+                        site["sets"]["weaked"] = arg
+                    elif bn == "with_epoch":
+                        site["stamp"] = arg
+                extra.append(site)
+                break
+        if extra:
+            out = sorted(out + extra, key=lambda s_: s_["idx"])
         return out
 
 
